@@ -68,6 +68,8 @@ TBasic == IsEv(l, "Basic") /\ Have /\ ~e.ok /\ UNCHANGED tx
 TCheckPred == IsEv(l, "CheckPred") /\ Have
               /\ LET v == SeqVerify(tx) IN e.ok = v.ok /\ (e.ok => e.gas = v.gas)
               /\ UNCHANGED tx
+\* the same check through the Checked<Transaction> wrapper, which reports the verdict only
+TCheckPredV == IsEv(l, "CheckPredV") /\ Have /\ e.ok = SeqVerify(tx).ok /\ UNCHANGED tx
 TIntoChecked == IsEv(l, "IntoChecked") /\ Have /\ e.ok = AllAuthorised(tx) /\ UNCHANGED tx
 TSetGas == IsEv(l, "SetGas") /\ Have /\ tx' = WithGases(tx, e.gases)
 TEstimate == IsEv(l, "Estimate") /\ Have
@@ -84,6 +86,6 @@ TMutate == IsEv(l, "Mutate") /\ Have /\ SignedIdx(tx) # {}
            /\ UNCHANGED tx
 
 TrInit == InitWith(<<>>, "trace") /\ l = 1
-TrNext == (TSeg \/ TTx \/ TCheckSig \/ TBasic \/ TCheckPred \/ TIntoChecked \/ TSetGas \/ TEstimate \/ TMutate) /\ l' = l + 1 /\ UNCHANGED idle
+TrNext == (TSeg \/ TTx \/ TCheckSig \/ TBasic \/ TCheckPred \/ TCheckPredV \/ TIntoChecked \/ TSetGas \/ TEstimate \/ TMutate) /\ l' = l + 1 /\ UNCHANGED idle
 TrSpec == TrInit /\ [][TrNext]_trVars
 =============================================================================
